@@ -616,7 +616,7 @@ impl LineBuf {
 		self.index_byte_pos(self.cursor.get())
 	}
 	pub fn find_index_for_byte_pos(&self, index: usize) -> Option<usize> {
-		self.grapheme_indices().iter().find(|idx| **idx == index).copied()
+		self.grapheme_indices().iter().position(|idx| *idx == index)
 	}
 	pub fn index_byte_pos(&mut self, index: usize) -> usize {
 		self.update_graphemes_lazy();
